@@ -74,8 +74,10 @@ def run(repo, rep):
     key = 'R-BRANCH::geodepy/transform.py::conform7::no-vcv'
     if isinstance(val.items[3], NoneV):
         rep.holds('R-BRANCH', key, w, 'without an input covariance the fourth result is None')
-    else:
+    elif isinstance(val.items[3], (Mat, Rat)):
         rep.violated('R-BRANCH', key, w, 'without an input covariance the fourth result is not None: %s' % show(val.items[3], 2, 200))
+    else:
+        rep.undecided('R-BRANCH', key, w, 'without an input covariance the fourth result is not decided to be None: %s' % show(val.items[3], 2, 200))
     # set without uncertainties but covariance supplied
     ev2 = Evaluator(repo)
     T2, _ = symbolic_sets(repo, ev2)
@@ -107,7 +109,25 @@ def run(repo, rep):
                          expected='a rank-0 value (index the element, e.g. a[i, 0])', actual=msg)
     if n_shape == 0:
         rep.holds('R-SHAPE', 'R-SHAPE::geodepy/transform.py::conform7::stores', w, 'every store into j_mat / q_mat receives a rank-0 value; all matrix products conform')
+    # the zero matrix is a legitimate (PSD) covariance: the parameter contribution must still be returned
+    ev4 = Evaluator(repo)
+    T4, SD4 = symbolic_sets(repo, ev4)
+    Z = Mat([[C(0) for j in range(3)] for i in range(3)], (3, 3))
+    val4 = ev4.call_function(f, {ps[0]: Rat.sym('x'), ps[1]: Rat.sym('y'), ps[2]: Rat.sym('z'), ps[3]: T4, ps[4]: Z})
+    key = 'R-BRANCH::geodepy/transform.py::conform7::zero-vcv'
+    z4 = val4.items[3] if isinstance(val4, Tup) and len(val4.items) == 4 else None
+    if isinstance(z4, Mat) and z4.shape == (3, 3):
+        rep.holds('R-BRANCH', key, w, 'a zero input covariance still yields the 3x3 contribution of the parameter uncertainties')
+    elif isinstance(z4, NoneV):
+        rep.violated('R-BRANCH', key, w, 'a zero input covariance (a fixed point; symmetric PSD) is answered with None: the parameter-uncertainty contribution is lost',
+                     expected='a 3x3 covariance', actual='None')
+    else:
+        rep.undecided('R-BRANCH', key, w, 'result for a zero input covariance: %s' % show(z4, 2, 160))
     covk = 'R-FORMULA::geodepy/transform.py::conform7::covariance'
+    if isinstance(val3, Tup) and len(val3.items) == 4 and not isinstance(val3.items[3], (Mat, NoneV)):
+        rep.undecided('R-BRANCH', 'R-BRANCH::geodepy/transform.py::conform7::vcv', w,
+                      'with a symbolic input covariance the fourth result depends on a condition the evaluator cannot fold: %s' % show(val3.items[3], 2, 200))
+        return
     if not isinstance(val3, Tup) or len(val3.items) != 4 or not isinstance(val3.items[3], Mat) or val3.items[3].shape != (3, 3):
         rep.violated('R-BRANCH', 'R-BRANCH::geodepy/transform.py::conform7::vcv', w,
                      'with an input covariance and a set carrying uncertainties no 3x3 covariance is returned: %s' % show(val3.items[3] if isinstance(val3, Tup) and len(val3.items) == 4 else val3, 2, 200))
